@@ -6,7 +6,7 @@ multiplicity of call sites (which a correct de-duplication refactor legitimately
 non-vacuity floor."""
 import json, re, subprocess
 over = {"R1": -10, "R2": -3, "R3": -3, "R5": -2, "R7": -2, "R8": -1, "R12": -5, "R16": -3, "R19": -3, "R20": -2, "R25": -2, "R11": -2, "R37": -1}
-fixed = {"R4": 5, "R21": 1, "R22": 1, "R23": 1, "R24": 1, "R26": 1, "R27": 1, "R28": 1, "R29": 1, "R33": 1}
+fixed = {"R4": 5, "R21": 1, "R22": 1, "R23": 1, "R24": 1, "R26": 1, "R27": 1, "R28": 1, "R29": 1, "R33": 1, "R39": 1}
 half = {"R17", "R34", "R38"}
 out = subprocess.run(["/verif/bin/klevlint", "-verif", "/verif", "-repo", "/repo", "-list", "-p", "all"], capture_output=True, text=True).stdout
 floors = {"_comment": "Per rule@property: minimal number of rule instances. Derived by tools/gen_floors.py from the counts on the pinned (repaired) tree: rules whose instances are independent mechanisms keep their count minus a small allowance; rules whose instance count is a multiplicity of call sites (which a correct de-duplication legitimately reduces) keep a non-vacuity floor only. Keyed by rule and property, never by line. A run that finds fewer instances reports undecided."}
